@@ -110,3 +110,4 @@ def run(ctx):
     dims_rule(ctx, F)
     from . import C20b
     C20b.run(ctx, F)
+    C20b.tag_rule(ctx, F)
